@@ -116,3 +116,36 @@ macro_rules! vcover {
         }
     }};
 }
+
+/// calls `$f(i)` for i = 0..N as straight-line code (no loop for the model checker to unwind)
+#[macro_export]
+macro_rules! rep {
+    ($f:expr; $($i:expr),*) => {{ let mut f = $f; $( f($i as usize); )* }};
+}
+#[macro_export]
+macro_rules! rep6 { ($f:expr) => { $crate::rep!($f; 0,1,2,3,4,5) }; }
+#[macro_export]
+macro_rules! rep8 { ($f:expr) => { $crate::rep!($f; 0,1,2,3,4,5,6,7) }; }
+#[macro_export]
+macro_rules! rep20 { ($f:expr) => { $crate::rep!($f; 0,1,2,3,4,5,6,7,8,9,10,11,12,13,14,15,16,17,18,19) }; }
+#[macro_export]
+macro_rules! rep48 { ($f:expr) => { $crate::rep!($f; 0,1,2,3,4,5,6,7,8,9,10,11,12,13,14,15,16,17,18,19,20,21,22,23,
+    24,25,26,27,28,29,30,31,32,33,34,35,36,37,38,39,40,41,42,43,44,45,46,47) }; }
+
+/// 32-byte equality without a byte loop
+pub fn eq32(a: &[u8; 32], b: &[u8; 32]) -> bool {
+    let w = |x: &[u8; 32], i: usize| u64::from_le_bytes([x[i], x[i + 1], x[i + 2], x[i + 3], x[i + 4], x[i + 5], x[i + 6], x[i + 7]]);
+    w(a, 0) == w(b, 0) && w(a, 8) == w(b, 8) && w(a, 16) == w(b, 16) && w(a, 24) == w(b, 24)
+}
+/// equality of two byte strings of at most 8 bytes without a loop
+pub fn eq_short(a: &[u8], b: &[u8]) -> bool {
+    if a.len() != b.len() || a.len() > 8 {
+        return false;
+    }
+    let mut ok = true;
+    rep8!(|i: usize| if i < a.len() { ok = ok && a[i] == b[i]; });
+    ok
+}
+#[macro_export]
+macro_rules! rep40 { ($f:expr) => { $crate::rep!($f; 0,1,2,3,4,5,6,7,8,9,10,11,12,13,14,15,16,17,18,19,20,21,22,23,
+    24,25,26,27,28,29,30,31,32,33,34,35,36,37,38,39) }; }
